@@ -65,13 +65,13 @@ func (t *Transformer) transformBind(wb *WireBind, pkg *types.Package) (*KessokuB
 	var funcExpr ast.Expr
 	if implPkg != nil && implPkg != pkg {
 		// External package - use selector with proper import handling
-		pkgName := implPkg.Name()
+		qualifier := ast.NewIdent(implPkg.Name())
 		// If we have a TypeConverter, register the import and get the actual name to use
 		if t.tc != nil {
-			pkgName = t.tc.AddImport(implPkg.Path(), implPkg.Name())
+			qualifier = t.tc.Qualifier(t.tc.AddImport(implPkg.Path(), implPkg.Name()))
 		}
 		funcExpr = &ast.SelectorExpr{
-			X:   ast.NewIdent(pkgName),
+			X:   qualifier,
 			Sel: ast.NewIdent(constructorName),
 		}
 	} else {
